@@ -34,6 +34,7 @@ def install(eng):
     b['heapq.heappush'] = _heappush
     b['sys.setrecursionlimit'] = lambda eng, e, st, args, kw: PNone()
     install_os(eng)
+    install_argparse(eng)
     b['heapq.heappop'] = _heappop
 
 
@@ -57,6 +58,9 @@ def _str(eng, e, st, args, kw):
     if isinstance(v, ZV) and v.shape == TF:
         _use(eng, 'str(float) is repr(float)')
         return ZV(TStr, s_offloat(v.term))
+    if isinstance(v, (ZV, PList, PTuple, PRec)):
+        _use(eng, 'str(x) of a container is some string (only used in messages)')
+        return fresh(TStr, 'str_of')
     raise Unsupported('str() of %r' % (v,))
 
 
@@ -415,3 +419,24 @@ def install_os(eng):
     b['threading.main_thread'] = _thread
     b['time.sleep'] = lambda eng, e, st, args, kw: PNone()
     b['input'] = _input
+
+
+# ------------------------------------------------------------------ argparse (assumed): parse_args returns a namespace of the declared shape
+def _argparser(eng, e, st, args, kw):
+    return PObj('argparse:ArgumentParser', {})
+
+
+def _parse_args(eng, e, st, args, kw):
+    from .engine import ObjShape
+    shp = eng.cur.con.locals.get('args')
+    if not isinstance(shp, ObjShape):
+        raise Unsupported('parse_args(): declare the namespace shape as local "args" in the contract')
+    _use(eng, 'argparse: parse_args() returns a namespace whose attributes have the declared types (type=int gives an int or None)')
+    return fresh(shp, 'args')
+
+
+def install_argparse(eng):
+    b = eng.builtins
+    b['argparse.ArgumentParser'] = _argparser
+    b['argparse:ArgumentParser.add_argument'] = lambda eng, e, st, args, kw: PNone()
+    b['argparse:ArgumentParser.parse_args'] = _parse_args
